@@ -300,6 +300,13 @@ func runProps(props []string, tier, repo, verif string, seed int, writeEv bool, 
 				distinct[o.Rule+"|"+key] = true
 			}
 		}
+		// genuine defects that were demonstrated dynamically (independent bug hunters) and are neither repaired nor
+		// decided by any static rule: listed so that they are not mistaken for "holds"; they suppress nothing
+		for _, k := range known {
+			if k.Status == "known-dynamic" && k.Property == prop {
+				fmt.Printf("KNOWN-FINDING: property=%s (no static rule decides this; demonstrated by %s) %s\n", prop, k.Demo, k.What)
+			}
+		}
 		sortObs(obs)
 		for _, o := range obs {
 			switch {
